@@ -7,7 +7,7 @@ register(PropSpec(
     "C18",
     engines=[EngineSpec("pool", gen_pool.gen, gen_pool.mon_c18, gen_pool.tags_pool, quick_n=300, thorough_n=20000)],
     rule="pool engine: 4 accounts, out-of-order arrival, gaps, stale and conflicting nonces, duplicates by hash, local/remote, leader/follower, batch sizes 1-4, "
-         "pool sizes 3-50, timed and untimed mode, GenerateBlock, commits of the oldest uncommitted batch (whole / prefix / reversed), commits of blocks of another "
+         "pool sizes 3-50, timed and untimed mode, GenerateBlock, commits of the oldest uncommitted batch (whole / prefix / suffix that skips the lower nonces / reversed) and of the second-oldest batch first, commits of blocks of another "
          "leader for one account, unknown hashes, age-based eviction with chosen cuts, SetBatchSeqNo, restart with ledger nonces; every returned batch is checked "
          "against what was given (gap-free from the chain's committed nonce, once, size, consecutive heights); non-trivial = at least one batch; distinct = distinct op list",
 ))
